@@ -304,6 +304,11 @@ def second(items, n):
     return list(zip(sel, rs))
 
 
+REPLAY = {'quick': [('ab', 2, 40), ('a_b', 2, 30)],
+          'thorough': [('ab', 2, None), ('a_b', 2, None), ('abc', 2, 500),
+                       ('ab_c', 3, 400)]}
+
+
 def main():
     a = common.std_args()
     rep = common.Report('C02', 'model_checking', a.tier)
@@ -344,6 +349,36 @@ def main():
     rep.cov['runs'] = len(items)
     rep.cov['second_runs'] = len(sec)
     S.cleanup(items)
+    # specification -> code: behaviours of HierSched.tla over the reduction
+    # system extracted from the real passes (all verdict functions x all
+    # dictatable completion orders), replayed into the real pool.  The
+    # command accepts exactly the inputs of the behaviour's verdict function,
+    # so the fixed point is read off the extracted task table: no task of the
+    # last pass on the output may lead to an accepted input.
+    import hreplay
+    rr = hreplay.replay_all(rep, S, REPLAY[a.tier], common.seed() + 22,
+                            'c02r')
+    nfp = 0
+    for it, d, b, diffs in rr:
+        rep.count()
+        if it.run.timed_out or it.run.status != 0:
+            continue
+        rep.nontrivial(common.digest([d['name'], b['sweeps']]))
+        S.trace_violations(rep, it, CLAUSES)
+        bad = hreplay.fixed_point_violations(d, it.run)
+        nfp += 1
+        if bad:
+            rep.violation(
+                'replayed-behaviour-output-not-a-fixed-point:' +
+                common.digest([d['name'], b['sweeps']]),
+                f'system {d["name"]}, -j {b["workers"]}: {bad[0]} '
+                f'({len(bad)} such tasks); the run was dictated the '
+                f'completion order and verdicts of a behaviour of '
+                f'HierSched.tla' + (f'; it left the behaviour: {diffs[0]}'
+                                    if diffs else ''), S.replay_obj(it))
+    rep.cov['replay_outputs_checked_against_the_task_table'] = nfp
+    rep.cov['replay_divergences'] = sum(1 for x in rr if x[3])
+    S.cleanup([x[0] for x in rr])
     return rep.finish()
 
 
